@@ -118,7 +118,8 @@ theorem UdpSock.asyncReceive_cons (u : UdpSock) (op : RecvOp) (p : Pkt) (rest : 
     u.asyncReceive op =
       ({ u with queue := rest, queueSize := u.queueSize - p.payload.length, recvH := none, recvNull := false },
        [.post { h := op.h, ec := .ok,
-                extra := recvExtra op.withEp (p.payload.take (op.caps.foldl (· + ·) 0)) p.src }]) := by
+                extra := recvExtra op.withEp (p.payload.take (op.caps.foldl (· + ·) 0)) p.src,
+                data := p.payload.take (op.caps.foldl (· + ·) 0), src := p.src }]) := by
   simp [UdpSock.asyncReceive, u.receiveFrom_cons op.caps p rest ho hb hq]
 
 theorem UdpSock.asyncReceive_cases (u : UdpSock) (op : RecvOp) :
@@ -131,7 +132,8 @@ theorem UdpSock.asyncReceive_cases (u : UdpSock) (op : RecvOp) :
         u.asyncReceive op =
           ({ u with queue := rest, queueSize := u.queueSize - p.payload.length, recvH := none, recvNull := false },
            [.post { h := op.h, ec := .ok,
-                    extra := recvExtra op.withEp (p.payload.take (op.caps.foldl (· + ·) 0)) p.src }])) := by
+                    extra := recvExtra op.withEp (p.payload.take (op.caps.foldl (· + ·) 0)) p.src,
+                    data := p.payload.take (op.caps.foldl (· + ·) 0), src := p.src }])) := by
   rcases u.open_bound_queue_cases with ho | ⟨ho, hb⟩ | ⟨ho, hb, hq⟩ | ⟨p, rest, ho, hb, hq⟩
   · exact Or.inl ⟨ho, u.asyncReceive_closed op ho⟩
   · exact Or.inr (Or.inl ⟨ho, hb, u.asyncReceive_unbound op ho hb⟩)
